@@ -581,6 +581,9 @@ class CoordMatcher(WrappingMatcher):
         self._termcount = len(list(child.term_matchers()))
         self._scale = scale
 
+    def copy(self):
+        return self.__class__(self.child.copy(), scale=self._scale)
+
     def _replacement(self, newchild):
         return self.__class__(newchild, scale=self._scale)
 
